@@ -115,7 +115,9 @@ def main():
         rc, out = sh("git apply %s" % patch, cwd=sb)
         for c in checks:
             t0 = time.time()
-            rc, out = sh("VERIF_REPO=%s VERIF_OUT=/tmp/sbout-%s ./bin/check %s --tier %s" % (sb, tag, c, tier), cwd="/verif", timeout=3000)
+            # SEED_VERIF: a snapshot copy of /verif (harness, mc, bin) so that /verif can be edited while a queue runs
+            vd = os.environ.get("SEED_VERIF", "/verif")
+            rc, out = sh("VERIF_DIR=%s VERIF_REPO=%s VERIF_OUT=/tmp/sbout-%s %s/bin/check %s --tier %s" % (vd, sb, tag, vd, c, tier), cwd=vd, timeout=3000)
             viol = [l for l in out.splitlines() if l.startswith("VIOLATION") or l.startswith("  unit=") or l.startswith("ERROR") or l.startswith("check ")]
             res["checks"][c] = {"rc": rc, "tier": tier, "wall_s": round(time.time() - t0, 1), "lines": viol[:12]}
     finally:
@@ -124,7 +126,7 @@ def main():
     res["detected"] = any(v["rc"] == 1 for v in res["checks"].values())
     print(json.dumps(res, indent=1))
     if keep:
-        dst = "/verif/seeded/%s" % tag.replace("seed-", "")
+        dst = "/verif/seeded/%s" % re.sub(r"^seed2-(C\d+)-(\w+)$", r"\1-r2-\2", tag).replace("seed-", "")
         os.makedirs(dst, exist_ok=True)
         shutil.copy(patch, dst)
         if demo:
